@@ -168,6 +168,9 @@ class AvroJSONDecoder:
             for key in self._current:
                 break
             yield
+            # Actions left over from the value (e.g. the end of a record) must
+            # run before we return to the map itself
+            self._parser.flush_pending_actions()
             self._pop()
             del self._current[key]
 
